@@ -353,6 +353,10 @@ def _exponent_update(fn):
             if isinstance(ie.body, ast.BinOp) and norm(ie.body.left) == tgt and type(ie.body.op) in OPSYM:
                 out["present_op"] = OPSYM[type(ie.body.op)]
                 out["present_arg"] = norm(ie.body.right)
+            elif isinstance(ie.body, ast.BinOp) and norm(ie.body.right) == tgt and type(ie.body.op) in OPSYM:
+                # `exp - old` instead of `old - exp`: the same for + and *, the opposite sign / the reciprocal for - and /
+                out["present_swapped"] = OPSYM[type(ie.body.op)]
+                out["present_arg"] = norm(ie.body.left)
             if isinstance(ie.orelse, ast.Name):
                 out["absent_sign"], out["absent_arg"] = "+", ie.orelse.id
             elif isinstance(ie.orelse, ast.UnaryOp) and isinstance(ie.orelse.op, ast.USub) and isinstance(ie.orelse.operand, ast.Name):
@@ -378,6 +382,12 @@ def r3_exponent_algebra(ctx):
     for (rel, q), op in want.items():
         fn = ctx.fn(rel, q)
         u = _exponent_update(fn)
+        if u is not None and u.get("present_swapped") in ("-", "/") and u.get("target") == "baseunits[unit]":
+            ctx.violated(rel, q, "exponents: present key => old op exp, absent key => op exp", detail=u,
+                         expected={"present": f"baseunits[unit] {op} exp (the old exponent on the left)"})
+            continue
+        if u is not None and u.get("present_swapped") in ("+", "*"):
+            u["present_op"] = u.pop("present_swapped")
         if u is None or "present_op" not in u or "absent_sign" not in u or u.get("iter") != "other.baseunits.items()" \
                 or u.get("test") != "unit in baseunits" or u.get("target") != "baseunits[unit]":
             ctx.unrecognised(rel, q, "exponent update", f"present/absent idiom not recognised: {u}")
